@@ -336,6 +336,10 @@ Section ModelIsSource.
           src_dyn_occ_set_itv S R tstep o t = occ_at (dyn i ty (fun p => Some (e_itv p)) o) t)
     /\ (forall i ty o t, src_dyn_state_set_itv S R tstep o t = st_at (dyn i ty (fun p => Some (e_itv p)) o) t).
   Proof. exact (model_dispatch_is_source S R tstep place). Qed.
+  (* EnvironmentObstacle.occupancy_at_time (translated too): the stored region at every time step *)
+  Theorem C04_model_is_source_environment : forall i ty (o : env_obs R) t,
+    Some (src_env_occ R o t) = occ_at (Env i ty (eo_shape o)) t.
+  Proof. exact (src_env_occ_eq S R tstep place). Qed.
 End ModelIsSource.
 (* the cache hypothesis is satisfiable: a trajectory prediction whose cached set is what _create_occupancy_set computes *)
 Example C04_model_is_source_nonvacuous :
@@ -393,3 +397,4 @@ Print Assumptions C04_dispatch_nonvacuous.
 Print Assumptions C04_enclosure_nonvacuous.
 Print Assumptions C04_model_is_source.
 Print Assumptions C04_model_is_source_nonvacuous.
+Print Assumptions C04_model_is_source_environment.
